@@ -307,26 +307,33 @@ func c15Check(c *c15Case, files map[string]string) (got []string, sig, what stri
 			return got, cls + ":" + c.Entry, fmt.Sprintf("%s of %q from %s hands %q to the loader/cache (not a clean absolute path)", c.Entry, c.Name, c.Referrer, p)
 		}
 	}
-	// loader requests must be exactly the reference resolution's; cache requests must all be for that
-	// resolution (which cache keys are probed, and how often, is not part of the statement)
-	loader := func(t []string) string {
-		var o []string
-		for _, x := range t {
-			if x[0] == 'E' || x[0] == 'O' {
-				o = append(o, x)
-			}
-		}
-		return strings.Join(o, "|")
-	}
+	// What the statement fixes about the requests themselves: the name resolves to one clean path, so every
+	// loader and cache request is for that path (plus a configured extension) and nothing else - "the same
+	// template is always requested under the same path" -, and the file that is opened is the resolution's.
+	// In which order, how often, and whether Exists precedes Open belongs to C16, not here.
 	keys := map[string]bool{}
+	opened := ""
 	for _, w := range want {
 		keys[w[2:]] = true
+		if w[0] == 'O' {
+			opened = w[2:]
+		}
 	}
-	bad := loader(got) != loader(want)
+	bad := false
+	sawOpen := false
 	for _, g := range got {
-		if (g[0] == 'G' || g[0] == 'P') && !keys[g[2:]] {
+		if !keys[g[2:]] {
 			bad = true
 		}
+		if g[0] == 'O' {
+			sawOpen = true
+			if g[2:] != opened {
+				bad = true
+			}
+		}
+	}
+	if opened != "" && !sawOpen {
+		bad = true
 	}
 	if bad {
 		c.Got, c.Want = got, want
